@@ -138,7 +138,7 @@ func mergeConfigDict(opts *options, to, from *Config) Error {
 
 func mergeConfigArr(opts *options, to, from *Config) Error {
 	currHandling := opts.configValueHandling
-	opts, err := fieldOptsOverride(opts, "*", -1)
+	elemOpts, err := fieldOptsOverride(opts, "*", -1)
 	if err != nil {
 		return err
 	}
@@ -153,9 +153,9 @@ func mergeConfigArr(opts *options, to, from *Config) Error {
 		return mergeConfigAppendArr(opts, to, from)
 
 	case cfgDefaultHandling, cfgMergeValues:
-		return mergeConfigMergeArr(opts, to, from)
+		return mergeConfigMergeArr(opts, elemOpts, to, from)
 	default:
-		return mergeConfigMergeArr(opts, to, from)
+		return mergeConfigMergeArr(opts, elemOpts, to, from)
 	}
 }
 
@@ -175,7 +175,10 @@ func mergeConfigReplaceArr(opts *options, to, from *Config) Error {
 	return nil
 }
 
-func mergeConfigMergeArr(opts *options, to, from *Config) Error {
+// mergeConfigMergeArr merges the array elements by index. opts holds the
+// options of the array itself, elemOpts the options configured for all of its
+// elements (field handling wildcard '*').
+func mergeConfigMergeArr(opts, elemOpts *options, to, from *Config) Error {
 	l := len(to.fields.array())
 	arr := from.fields.array()
 	if l > len(arr) {
@@ -195,6 +198,10 @@ func mergeConfigMergeArr(opts *options, to, from *Config) Error {
 		idxOpts, err := fieldOptsOverride(opts, "", i)
 		if err != nil {
 			return err
+		}
+		if opts.fieldHandlingTree != nil && idxOpts.fieldHandlingTree == nil {
+			// nothing configured for index i in particular
+			idxOpts = elemOpts
 		}
 		old := to.fields.array()[i]
 		merged, err := mergeValues(idxOpts, old, arr[i])
@@ -590,7 +597,9 @@ func fieldOptsOverride(opts *options, fieldName string, idx int) (*options, Erro
 		// Only return a new `options` when arriving at new nested child. This
 		// combined with optimizations in `includeWildcard` will ensure that only
 		// a new opts will be created and returned when absolutely required.
-		if child != nil && opts.fieldHandlingTree != child {
+		// If nothing is configured for the field (child is nil) the handling
+		// tree ends here: options for a.b must not apply to x.a.y.b.
+		if opts.fieldHandlingTree != child {
 			newOpts := *opts
 			newOpts.fieldHandlingTree = child
 			opts = &newOpts
